@@ -43,6 +43,22 @@ def OppositeOn (f g : Face) : Prop := ∃ a b, (a, b) ∈ dirEdges f ∧ (b, a) 
 /-- the faces have no directed edge in common (every shared edge is traversed oppositely) -/
 def Consistent (f g : Face) : Prop := ∀ e ∈ dirEdges g, e ∉ dirEdges f
 
+/-- `f` or its reversal -/
+def flipIf (c : Bool) (f : Face) : Face := if c then f.reverse else f
+
+/-- `G` is a consistent reference orientation of the faces `F0` for the neighbour lists `nbrs`:
+every `G[k]` is `F0[k]` or its reversal, every listed neighbour pair shares an edge and has no
+directed edge in common (all their shared edges are traversed in opposite directions) -/
+structure RefOrientation (nbrs : List (List Nat)) (F0 G : List Face) : Prop where
+  orig : ∀ k, G.getD k [] = F0.getD k [] ∨ G.getD k [] = (F0.getD k []).reverse
+  shares : ∀ u v, v ∈ nbrs.getD u [] → SharesEdge (G.getD u []) (G.getD v [])
+  consistent : ∀ u v, v ∈ nbrs.getD u [] → Consistent (G.getD u []) (G.getD v [])
+
+/-- face `k` can be reached from face 0 through the neighbour lists -/
+inductive Reach (nbrs : List (List Nat)) : Nat → Prop where
+  | zero : Reach nbrs 0
+  | step {u v : Nat} : Reach nbrs u → v ∈ nbrs.getD u [] → Reach nbrs v
+
 section geometric
 variable {α : Type} [Scalar α]
 open Scalar
